@@ -24,8 +24,8 @@ class C16(BaseCheck):
                       'underlying-closed-while-held')
   QUICK_CASES = 1500
   THOROUGH_CASES = 120000
-  QUICK_WALL = 40
-  THOROUGH_WALL = 300
+  QUICK_WALL = 180
+  THOROUGH_WALL = 1800
   MIN_DISTINCT = 10
 
   def run_case(self, env, rng, idx, tier):
